@@ -21,6 +21,7 @@
 package security
 
 import (
+	"context"
 	"crypto/ecdsa"
 	"crypto/elliptic"
 	"crypto/rsa"
@@ -95,6 +96,12 @@ func IsSciToken(tokenStr string) bool {
 
 // DiscoverOIDCConfiguration fetches the OIDC configuration from the issuer
 func DiscoverOIDCConfiguration(issuer string) (*OIDCConfiguration, error) {
+	return DiscoverOIDCConfigurationContext(context.Background(), issuer)
+}
+
+// DiscoverOIDCConfigurationContext is DiscoverOIDCConfiguration bound to ctx: the
+// request is abandoned as soon as ctx is cancelled or its deadline passes.
+func DiscoverOIDCConfigurationContext(ctx context.Context, issuer string) (*OIDCConfiguration, error) {
 	// Construct the well-known configuration URL
 	configURL := strings.TrimSuffix(issuer, "/") + "/.well-known/openid-configuration"
 
@@ -108,7 +115,11 @@ func DiscoverOIDCConfiguration(issuer string) (*OIDCConfiguration, error) {
 		},
 	}
 
-	resp, err := client.Get(configURL)
+	req, err := http.NewRequestWithContext(ctx, http.MethodGet, configURL, nil)
+	if err != nil {
+		return nil, fmt.Errorf("failed to build OIDC configuration request for %s: %w", configURL, err)
+	}
+	resp, err := client.Do(req)
 	if err != nil {
 		return nil, fmt.Errorf("failed to fetch OIDC configuration from %s: %w", configURL, err)
 	}
@@ -128,6 +139,11 @@ func DiscoverOIDCConfiguration(issuer string) (*OIDCConfiguration, error) {
 
 // FetchJWKS fetches the JSON Web Key Set from the JWKS URI
 func FetchJWKS(jwksURI string) (*JWKS, error) {
+	return FetchJWKSContext(context.Background(), jwksURI)
+}
+
+// FetchJWKSContext is FetchJWKS bound to ctx.
+func FetchJWKSContext(ctx context.Context, jwksURI string) (*JWKS, error) {
 	client := &http.Client{
 		Timeout: 10 * time.Second,
 		Transport: &http.Transport{
@@ -137,7 +153,11 @@ func FetchJWKS(jwksURI string) (*JWKS, error) {
 		},
 	}
 
-	resp, err := client.Get(jwksURI)
+	req, err := http.NewRequestWithContext(ctx, http.MethodGet, jwksURI, nil)
+	if err != nil {
+		return nil, fmt.Errorf("failed to build JWKS request for %s: %w", jwksURI, err)
+	}
+	resp, err := client.Do(req)
 	if err != nil {
 		return nil, fmt.Errorf("failed to fetch JWKS from %s: %w", jwksURI, err)
 	}
@@ -158,6 +178,13 @@ func FetchJWKS(jwksURI string) (*JWKS, error) {
 // VerifySciToken verifies a SciToken's signature using OIDC discovery
 // Returns the validated claims if successful
 func VerifySciToken(tokenStr string) (*SciTokenClaims, error) {
+	return VerifySciTokenContext(context.Background(), tokenStr)
+}
+
+// VerifySciTokenContext is VerifySciToken bound to ctx: the OIDC discovery and JWKS
+// requests it makes to the token's issuer are abandoned when ctx is cancelled or its
+// deadline passes, so a handshake waiting on a stalled issuer stays cancellable.
+func VerifySciTokenContext(ctx context.Context, tokenStr string) (*SciTokenClaims, error) {
 	// Parse token without verification first to get issuer and kid
 	unverifiedToken, err := jwt.ParseWithClaims(tokenStr, &SciTokenClaims{}, nil)
 	if err != nil && unverifiedToken == nil {
@@ -181,13 +208,13 @@ func VerifySciToken(tokenStr string) (*SciTokenClaims, error) {
 	}
 
 	// Discover OIDC configuration (once per token verification)
-	config, err := DiscoverOIDCConfiguration(claims.Issuer)
+	config, err := DiscoverOIDCConfigurationContext(ctx, claims.Issuer)
 	if err != nil {
 		return nil, fmt.Errorf("OIDC discovery failed: %w", err)
 	}
 
 	// Fetch JWKS (once per token verification)
-	jwks, err := FetchJWKS(config.JWKSURI)
+	jwks, err := FetchJWKSContext(ctx, config.JWKSURI)
 	if err != nil {
 		return nil, fmt.Errorf("failed to fetch JWKS: %w", err)
 	}
